@@ -136,7 +136,7 @@ theorem C12_stray_preserves_sessions (cd : Codec) (dom : List Nat) (σ : Srv) (h
     (∀ code nu r, findCmd SA.Gen.commandTable request = ok (some (code, nu, false, r)) →
         ∃ a, onMessage cd dom σ m = ok (σ, a)) ∧
     (∀ code nu r, findCmd SA.Gen.commandTable request = ok (some (code, nu, true, r)) →
-        decodeHeader nu request = ok none → onMessage cd dom σ m = ok (σ, .drop)) ∧
+        decodeHeader nu request = ok none → onMessage cd dom σ m = ok (σ, .ignored)) ∧
     (∀ code nu r rest uid σ1 user e, findCmd SA.Gen.commandTable request = ok (some (code, nu, true, r)) →
         decodeHeader nu request = ok (some (rest, uid)) → validate σ uid m.addr = ok (σ1, user, e) →
         decodeRequest cd code nu true (upOf σ1 user) request = ok none →
@@ -268,6 +268,70 @@ theorem C12_site_coverage : ∀ s ∈ SA.Gen.panicSites, s ∈ coveredSites := b
   have := List.all_eq_true.mp h s hs
   simpa using this
 
+/-! ## between the socket and onMessage: the communicator's handler -/
+
+/-- regenerated shape of `NetConnectionServerCommunicator.handleRequest`: every read of `resp` is dominated by a test of
+    the error onMessage returned next to it (or of `resp` itself) … -/
+theorem C12_handler_resp_uses_dominated : ∀ u ∈ SA.Gen.c12HandlerRespUses, u.2 = true := by decide
+
+/-- … the `if err != nil` block after the onMessage call leaves the function, and this is the function registered with
+    miekg/dns -/
+theorem C12_handler_err_branch_returns :
+    SA.Gen.c12HandlerErrReturns = true ∧ SA.Gen.c12HandlerRegistered = true ∧ SA.Gen.c12HandlerRespUses ≠ [] := by decide
+
+/-- a handler that returns on error never dereferences a missing response, whatever onMessage answered: it sends
+    nothing exactly when there was an error and writes the response otherwise -/
+theorem handleRet_returns (a : Ans) (tsig : Bool) :
+    handleRet true (retOf a) tsig = ok (if (retOf a).err then .nothing else .wrote tsig) := by
+  cases a <;> simp [handleRet, retOf]
+
+/-- **no message makes the handler dereference a missing response**: for every total codec, every state satisfying the
+    invariant, every one-question message and either TSIG status, the path socket → handleRequest → onMessage →
+    handleRequest → WriteMsg returns normally: an answer was written, or (error) nothing at all was sent; the state is
+    the one onMessage left, with the invariant re-established. -/
+theorem C12_handler_no_missing_response_deref (cd : Codec) (hT : cd.Total) (dom : List Nat) (σ : Srv) (hI : Inv σ) (m : Msg)
+    (tsig : Bool) :
+    ∃ σ' a, onMessage cd dom σ m = ok (σ', a) ∧ Inv σ' ∧
+      serve cd dom σ m tsig = ok (σ', a, if (retOf a).err then .nothing else .wrote tsig) := by
+  obtain ⟨σ', a, h, hI'⟩ := C12_server_no_panic cd hT dom σ hI m
+  refine ⟨σ', a, h, hI', ?_⟩
+  have hr : SA.Gen.c12HandlerErrReturns = true := C12_handler_err_branch_returns.1
+  simp only [serve, serveWith, hr, h, bind_ok, handleRet_returns, pure_eq]
+
+/-- … in particular after every history from a fresh listener -/
+theorem C12_handler_no_panic_reachable (cd : Codec) (hT : cd.Total) (dom : List Nat) (ops : List Op) (m : Msg) (tsig : Bool) :
+    serve cd dom (run cd dom Srv.init ops) m tsig ≠ panic := by
+  obtain ⟨σ', a, _, _, h⟩ := C12_handler_no_missing_response_deref cd hT dom _
+    (SA.Props.C13.C13_reachable_invariant cd hT dom ops) m tsig
+  rw [h]; intro h'; cases h'
+
+/-- the handler does not change what onMessage did to the sessions: C12_stray_preserves_sessions,
+    C12_stranger_commands_inert, C12_foreign_command_preserves_established carry over to the served path -/
+theorem C12_handler_state_from_onMessage (er : Bool) (cd : Codec) (dom : List Nat) (σ σ' : Srv) (m : Msg) (tsig : Bool) (a : Ans) (s : Sent)
+    (h : serveWith er cd dom σ m tsig = ok (σ', a, s)) : onMessage cd dom σ m = ok (σ', a) := by
+  unfold serveWith at h
+  cases ho : onMessage cd dom σ m with
+  | panic => rw [ho] at h; cases h
+  | ok p =>
+    obtain ⟨σ1, a1⟩ := p
+    rw [ho] at h
+    simp only [bind_ok] at h
+    cases hh : handleRet er (retOf a1) tsig with
+    | panic => rw [hh] at h; cases h
+    | ok s1 => rw [hh] at h; simp only [bind_ok, pure_eq] at h; cases h; rfl
+
+/-- **the early return is necessary** (kernel-checked): a handler that goes on after the error ("answers SERVFAIL on the
+    reply header that is there already") is killed by one ordinary lookup, `c.t.co.` from a stranger, on a fresh
+    listener: the request header cannot be decoded, onMessage returns `(nil, err)` … -/
+theorem C12_witness_handler_falls_through :
+    ansOf (onMessage { dec := fun _ _ => none, encLen := fun _ n => n } [116, 46, 99, 111] Srv.init
+        { addr := 3, qtype := 1, name := [99, 46, 116, 46, 99, 111, 46], hint := 84 }) = some .ignored ∧
+    serveWith false { dec := fun _ _ => none, encLen := fun _ n => n } [116, 46, 99, 111] Srv.init
+        { addr := 3, qtype := 1, name := [99, 46, 116, 46, 99, 111, 46], hint := 84 } false = panic ∧
+    -- … while the case its author would try (an answer that cannot be wrapped: `(msg, err)`) goes well
+    handleRet false (retOf .drop) false = ok (.wrote false) := by
+  refine ⟨by decide, by decide, by decide⟩
+
 /-- the command table still contains the reserved commands without constructors that the guards are about -/
 theorem C12_reserved_commands_present :
     (SA.Gen.commandTable.filter fun c => !c.2.2.1).map (·.1) = [108, 109, 101] := by decide
@@ -284,6 +348,9 @@ example : decodeHeader true [99, 97] = ok none := by decide                     
 example : SA.DnsClient.decodeAnswer { dec := fun _ _ => none, encLen := fun _ n => n } 4 84 [] = ok none := by decide
 example : SA.DnsClient.decodeAnswer { dec := fun _ _ => none, encLen := fun _ n => n } 4 84 [.txt [], .null [1], .cname [97]] = ok none := by decide
 example : chunks 3 1 [7, 8, 9] = [[7], [8], [9]] := by decide
+-- the three kinds of return of onMessage all occur: (nil, err), (msg, err), (msg, nil)
+example : retOf .ignored = ⟨false, true⟩ ∧ retOf .drop = ⟨true, true⟩ ∧ retOf .optionsOk = ⟨true, false⟩ := by decide
+example : handleRequest (retOf .ignored) true = ok .nothing ∧ handleRequest (retOf (.version 0)) true = ok (.wrote true) := by decide
 example : ({ dec := fun _ _ => none, encLen := fun _ n => n } : Codec).Total := fun _ _ => rfl   -- the hypothesis is satisfiable
 -- the hypothesis of `C12_stranger_commands_inert` is met by address 2 on `twoSlots`, and not by address 1
 example : (∀ i sid : Nat, twoSlots.live[i]? = some (some sid) → (twoSlots.sess sid).owner ≠ 2) := by
@@ -313,6 +380,12 @@ end SA.Props.C12
 #print axioms SA.Props.C12.C12_witness_close_before_refusal
 #print axioms SA.Props.C12.C12_site_coverage
 #print axioms SA.Props.C12.C12_reserved_commands_present
+#print axioms SA.Props.C12.C12_handler_resp_uses_dominated
+#print axioms SA.Props.C12.C12_handler_err_branch_returns
+#print axioms SA.Props.C12.C12_handler_no_missing_response_deref
+#print axioms SA.Props.C12.C12_handler_no_panic_reachable
+#print axioms SA.Props.C12.C12_handler_state_from_onMessage
+#print axioms SA.Props.C12.C12_witness_handler_falls_through
 
 namespace SA.PkgState
 /-- **no_hidden_process_state**: the models of this property are functions of their arguments and of the objects they are
